@@ -104,6 +104,43 @@ CHECKS = {
         "design_ref": "DESIGN.md §5 C07",
         "level_text": "The expected message is computed by a 30-line abstract rename on the decoded input; the library's output must decode to it (names up to case), be accepted, fail exactly when a name would exceed 255, and identity renames must be no-ops.",
     },
+    "C12": {
+        "title": "header setters touch only their own bits; getters return what was set",
+        "flavours": BOTH,
+        "level": "exploration",
+        "technique": "runtime monitoring: pure bit-model oracle on the 12 header bytes before/after each setter, exhaustive over the 16-bit flag word and the significant argument bits",
+        "rule": "all 65536 flag words x all 256 arguments of set_opcode and set_rcode x both set_response values (exhaustive); all words x set_flags with the 32 single-bit arguments, 8 extreme arguments and 512 random ones (quick) or all 65536 low halves with a random ignored upper half (thorough, exhaustive over the significant bits); all 65536 low halves x 64 words; all 65536 ids x 64 header words; random setter sequences; distinct = distinct (setter, initial flag word) pairs, counted",
+        "exhaustive": {"quick": False, "thorough": True},
+        "floors": {"quick": {"evaluations": 60000000}, "thorough": {"evaluations": 4000000000}},
+        "assumptions": COMMON_ASSUME + ["header state is installed through packet_mut() on an accepted packet object; the setters only read the 12 header bytes"],
+        "design_ref": "DESIGN.md §5 C12",
+        "level_text": "The specification is a bit formula, so the oracle is exact; the 16-bit flag word is swept completely against every 8-bit argument, and (thorough tier) against every significant set_flags argument; only the ignored upper half of the set_flags argument is sampled.",
+    },
+    "C13": {
+        "title": "record text synthesises to the right wire record; bad text is an error",
+        "flavours": BOTH,
+        "level": "exploration",
+        "technique": "runtime monitoring: grammar-derived (text, expected wire) pairs compared byte-for-byte, insertion re-decoded by the reference, damaged texts must fail, arbitrary strings under the panic monitor with a well-formedness oracle on anything returned",
+        "rule": "oracle A: texts of all nine types with boundary values (TTL 0 / 2^32-1, 62-byte labels, 253-byte names, 254/255/256/510/511/3825-byte TXT, decimal escapes, preference 0/65535, 1..64-byte digests), random horizontal whitespace and keyword case, each also inserted into answer/authority/additional of a G-valid packet; oracle B: 14 kinds of systematic damage; oracle C: random unicode, grammar-alphabet noise and mutated texts; distinct = (oracle, type or damage kind, owner depth, size and TTL class)",
+        "floors": {"quick": {"valid_accepted": 100000, "inserted": 100000, "damaged_rejected": 50000, "arbitrary_accepted": 5000, "arbitrary_rejected": 200000},
+                   "thorough": {"valid_accepted": 1000000}},
+        "assumptions": COMMON_ASSUME + ["texts whose status the property leaves open (empty TXT, TXT > 3825 bytes, all-numeric owner names, 63-byte labels) are generated only under oracle C"],
+        "design_ref": "DESIGN.md §5 C13",
+        "level_text": "Expected bytes come from an independent RFC 1035 encoder driven by the same generator that writes the text, so every supported type is compared byte-for-byte; invalid and arbitrary inputs are explored, not enumerated.",
+    },
+    "C14": {
+        "title": "host names convert between text and wire form without loss",
+        "flavours": BOTH,
+        "level": "exploration",
+        "technique": "runtime monitoring: reference splitter with must-accept / must-reject / either classes; output re-decoded and compared label by label; read-back through a record",
+        "rule": "every string of length <= 6 (quick) or <= 8 (thorough) over {a,B,0,-,_,.,\\,0x01} with and without a default zone (exhaustive), a grid of label lengths 61..64 x wire totals 250..256 x 4 zones x trailing dot, and random long/odd names; distinct = (family, reference class, label count, zone, absolute?, length bucket)",
+        "exhaustive": {"quick": False, "thorough": False},
+        "floors": {"quick": {"must-accept": 100000, "must-reject": 100000, "either": 50000, "round_trips": 100000},
+                   "thorough": {"must-accept": 1000000}},
+        "assumptions": COMMON_ASSUME + ["names the statement leaves open (63-byte labels, wire 254..255, empty string, bytes >= 0x80, characters outside LDH/underscore) may go either way; if accepted their output is still checked"],
+        "design_ref": "DESIGN.md §5 C14",
+        "level_text": "Short names over a small alphabet that includes the dot are enumerated completely; boundary lengths are covered by a grid; everything else is sampled.",
+    },
     "C18": {
         "title": "validation work is linear in the packet size",
         "flavours": {"quick": ["release"], "thorough": ["release", "checked"]},
@@ -121,7 +158,7 @@ CHECKS = {
 
 NOT_APPLICABLE = {}
 
-HOOK_COMMITS = ["230a15f"]
+HOOK_COMMITS = ["230a15f", "1e334ef"]
 
 ENGINES = [
     {"name": "dnsmon", "path": "/verif/harness", "serves_properties": sorted(CHECKS.keys()),
